@@ -131,28 +131,42 @@ def select(tier, seed, sample=None, with_singles=True):
     return rnd.sample(specs, min(len(specs), n))
 
 
-def make(specs):
-    """write the spec tree -> xml_dir"""
+SHARED_ENUMS = '''  <enum name="ItemKind" type="char"><value name="General">0</value><value name="Weapon">1</value><value name="Armor">2</value></enum>
+'''
+SHARED_STRUCTS = '''  <struct name="Named"><length name="name_length" type="char"/><field name="name" type="string" length="name_length"/></struct>
+  <struct name="NamedThing"><chunked><field name="name" type="string"/><break/><field name="level" type="char"/></chunked></struct>
+'''
+PACKET_ENUMS = '''  <enum name="PacketFamily" type="byte"><value name="Connection">1</value></enum>
+  <enum name="PacketAction" type="byte"><value name="Request">1</value></enum>
+'''
+
+
+def make(specs, layout="A"):
+    """write the spec tree -> xml_dir.
+    layout A: shared types in the root file and in net/ ahead of the generated structs (definitions are walked first);
+    layout B: the generated structs live in the ROOT file (walked first) and every shared type they use is defined
+              in pub/server/ (walked later): forward references across files, type resolution before definition."""
     out = tempfile.mkdtemp(prefix="vsx-pairs-")
     _made.append(out)
     for rel in (".", "map", "net", "net/client", "net/server", "pub", "pub/server"):
         os.makedirs(os.path.join(out, rel), exist_ok=True)
-        if rel not in (".", "net"):
-            open(os.path.join(out, rel, "protocol.xml"), "w").write("<protocol></protocol>\n")
-    shutil.copy(os.path.join(CORE, "protocol.xml"), os.path.join(out, "protocol.xml"))
-    base = '''<protocol>
-  <enum name="PacketFamily" type="byte"><value name="Connection">1</value></enum>
-  <enum name="PacketAction" type="byte"><value name="Request">1</value></enum>
-  <enum name="ItemKind" type="char"><value name="General">0</value><value name="Weapon">1</value><value name="Armor">2</value></enum>
-  <struct name="Named"><length name="name_length" type="char"/><field name="name" type="string" length="name_length"/></struct>
-  <struct name="NamedThing"><chunked><field name="name" type="string"/><break/><field name="level" type="char"/></chunked></struct>
-'''
-    parts = [base]
+        open(os.path.join(out, rel, "protocol.xml"), "w").write("<protocol></protocol>\n")
+    core_root = open(os.path.join(CORE, "protocol.xml")).read()
+    body = []
     for ctx, a, b in specs:
-        body = TEMPLATES[a][1].format(p="fa") + (TEMPLATES[b][1].format(p="fb") if b is not None else "")
-        parts.append('  <struct name="%s">%s</struct>\n' % (struct_name(ctx, a, b), wrap(ctx, body)))
-    parts.append("</protocol>\n")
-    open(os.path.join(out, "net", "protocol.xml"), "w").write("".join(parts))
+        inner = TEMPLATES[a][1].format(p="fa") + (TEMPLATES[b][1].format(p="fb") if b is not None else "")
+        body.append('  <struct name="%s">%s</struct>\n' % (struct_name(ctx, a, b), wrap(ctx, inner)))
+    if layout == "A":
+        shutil.copy(os.path.join(CORE, "protocol.xml"), os.path.join(out, "protocol.xml"))
+        open(os.path.join(out, "net", "protocol.xml"), "w").write(
+            "<protocol>\n" + PACKET_ENUMS + SHARED_ENUMS + SHARED_STRUCTS + "".join(body) + "</protocol>\n")
+    else:
+        # core root types (Direction, Mode, Coords, Spell, RootWide ...) move to pub/server together with the shared ones
+        inner_core = core_root[core_root.index("<protocol>") + len("<protocol>"):core_root.rindex("</protocol>")]
+        open(os.path.join(out, "pub", "server", "protocol.xml"), "w").write(
+            "<protocol>\n" + SHARED_ENUMS + inner_core + SHARED_STRUCTS + "</protocol>\n")
+        open(os.path.join(out, "net", "protocol.xml"), "w").write("<protocol>\n" + PACKET_ENUMS + "</protocol>\n")
+        open(os.path.join(out, "protocol.xml"), "w").write("<protocol>\n" + "".join(body) + "</protocol>\n")
     return out
 
 
